@@ -161,7 +161,7 @@ func (m *Machine) external(st *State, fr *Frame, instr ssa.Instruction, fn *ssa.
 	}
 	if i := strings.Index(name, "."); i > 0 {
 		switch strings.TrimPrefix(strings.TrimPrefix(name[:i], "(*"), "(") {
-		case "strings", "bytes", "strconv", "unicode", "unicode/utf8", "unicode/utf16", "math", "math/bits", "path", "path/filepath":
+		case "strings", "bytes", "strconv", "unicode", "unicode/utf8", "unicode/utf16", "math", "math/bits", "path", "path/filepath", "time.Time", "time.Duration", "time":
 			// side-effect-free standard library functions without a precise model: total, result unconstrained.
 			// Sound for proofs (anything that depends on the result stays unproved) and it keeps a change that
 			// starts using such a function decidable instead of undecided.
